@@ -658,9 +658,9 @@ def factor_add_terms_ex(
     # If there are variables, we want to extract them, so
     # the smallest number to factor out. TODO: is this okay?
     if has_left or has_right:
-        best = np.min(common)
+        best = min(common)
     else:
-        best = np.max(common)
+        best = max(common)
     result = FactorResult()
     result.best = best
     result.left = l_factors[best]
